@@ -371,9 +371,7 @@ def sortFiles (l : List (String × String)) : List (String × String) := l.foldr
 
 /-- Replace every `include` by the directives of the included files (each parsed on its own, as NGINX does). -/
 partial def expand (fs : FileSet) (depth : Nat) (ds : List Dir) : List Dir × List Issue :=
-  let incs := (ds.filter fun d => str d.name == "include" && d.block.isNone).map fun d => " ".intercalate d.argStrings
-  let dupInc : List Issue := match hasDup incs with | some k => [⟨"duplicate-include", k⟩] | none => []
-  ds.foldl (init := ([], dupInc)) fun (acc, iss) d =>
+  ds.zipIdx.foldl (init := ([], [])) fun (acc, iss) (d, idx) =>
     match d with
     | .mk name args blk =>
       if str name == "include" && blk.isNone then
@@ -384,7 +382,16 @@ partial def expand (fs : FileSet) (depth : Nat) (ds : List Dir) : List Dir × Li
             let targets :=
               if pat.contains '*' then sortFiles (fs.files.filter fun f => globMatch pat f.1.toList)
               else fs.files.filter fun f => f.1 == str pat
-            if targets.isEmpty && !pat.contains '*' then
+            -- the same file included a second time in this block: every single-valued directive of it "is duplicate"
+            let repeated := (ds.take idx).any fun e => str e.name == "include" && e.block.isNone && e.argStrings == d.argStrings
+            let firstSingle := targets.findSome? fun f =>
+              match parse f.2.toList with
+              | .ok sub => (sub.find? fun x => x.block.isNone && table.any fun sp => sp.name == str x.name && sp.single && !sp.block).map
+                  fun x => str x.name
+              | .error _ => none
+            if repeated && firstSingle.isSome then
+              (acc, iss ++ [⟨"duplicate-include", str pat ++ ": \"" ++ firstSingle.getD "" ++ "\" directive is duplicate"⟩])
+            else if targets.isEmpty && !pat.contains '*' then
               if fs.imagePaths.contains (str pat) then (acc, iss)
               else (acc, iss ++ [⟨"include-missing", str pat⟩])
             else
